@@ -134,6 +134,10 @@ var pMuts = []pMut{
 	{Name: "postDec", Stmt: "{N}{T}--;", Elem: true},
 	{Name: "preDec", Stmt: "--{N}{T};", Elem: true},
 	{Name: "incExpr", Stmt: "$x = {N}{T}++;", Elem: true},
+	// (the increment clause of a `for` is a node of its own: VarStmtIncr)
+	{Name: "forIncr", Stmt: "for ($fi = 0; $fi < 2; {N}{T}++) { $fi++; }", Elem: true},
+	{Name: "forDecr", Stmt: "for ($fi = 0; $fi < 2; {N}{T}--) { $fi++; }", Elem: true},
+	{Name: "whileInc", Stmt: "$fi = 0; while ($fi < 2) { {N}{T}++; $fi++; }", Elem: true},
 	// --- string offset writes
 	{Name: "strOffset", Stmt: "{N}{T}[1] = 'Z';", Elem: true},
 	{Name: "strOffsetCat", Stmt: "{N}{T}[0] .= 'Z';", Elem: true},
@@ -216,6 +220,12 @@ var pMuts = []pMut{
 	{Name: "unionAssign", Stmt: "{N}{P} += ['zz' => 'U'];"},
 	{Name: "storeNewKey", Stmt: "{N}{P}['zz'] = 'E';"},
 }
+
+// forms whose interesting path is taken by a numeric element (the quick tier runs them on int lists too)
+var numericForm = map[string]bool{"add": true, "sub": true, "mul": true, "div": true, "mod": true, "pow": true, "coalesce": true,
+	"bitor": true, "bitand": true, "bitxor": true, "shl": true, "shr": true, "addFloat": true, "cat": true, "catInt": true,
+	"postInc": true, "preInc": true, "postDec": true, "preDec": true, "incExpr": true, "forIncr": true, "forDecr": true, "whileInc": true,
+	"refInc": true, "refAdd": true, "refParamInc": true, "walkRefInc": true, "foreachRefInc": true, "sort": true, "usort": true, "sortM": true}
 
 func (m pMut) on(name string, s pShape) string {
 	return strings.NewReplacer("{N}", name, "{T1}", s.T1, "{T}", s.T, "{P}", s.P).Replace(m.Stmt)
@@ -630,10 +640,11 @@ func (r *runner) runPL(cs *Case) {
 }
 
 // plEnumerate runs the product.
-// quick:    (i)   every (route × mutation × side) on a list of strings,
+// quick:    (i)   every (route × mutation × side) on a list of strings and on a list of ints,
 //           (ii)  every (kind × shape × mutation) along plain assignment, written through the copy,
 //           (iii) every (kind × shape × route × side) under `.=`,
-//           (iv)  a seeded sample of the rest.
+//           (iv)  every (kind × mutation × side) where an element's payload is shared with a scalar variable,
+//           (v)   a seeded sample of the rest.
 // thorough: every (shape × route × mutation × side) for string and mixed elements; every
 //           (kind × route × mutation × side) on lists; every (kind × shape × mutation × side) along
 //           assignment, by-value parameter, clone and the twice-evaluated literal; a larger sample of the rest.
@@ -662,10 +673,11 @@ func (r *runner) plEnumerate(full bool, rnd *vh.Rand, sample int) int {
 			for _, rt := range pRoutes {
 				for _, m := range pMuts {
 					for _, side := range sides {
-						i := k.Name == "str" && s.Name == "list"
+						i := s.Name == "list" && (k.Name == "str" || (k.Name == "int" && numericForm[m.Name])) && (!rt.Fresh || m.Name == "cat" || m.Name == "add")
 						ii := rt.Name == "assign" && side == "copy"
 						iii := m.Name == "cat" && (!rt.Fresh || (k.Name == "str" && s.Name == "list"))
-						core := i || ii || iii
+						iv := rt.ScalarVar && s.Name == "list"
+						core := i || ii || iii || iv
 						if !full {
 							if !core {
 								continue
